@@ -50,6 +50,7 @@ class Knobs:
     adjacent_links_diff_anchor: float = 0.0  # D20
     xml_comment_in_props: float = 0.05  # comment inside rPr/pPr/tcPr
     cell_without_par: float = 0.0
+    shared_part: float = 0.12  # one content part related twice (D18, fixed)
     textbox_in_link: float = 0.0  # D32: a text box anchored in a hyperlink's run
     num_dangling_abstract: float = 0.0  # a w:num pointing at an abstractNum that is not there (corrupt numbering part)
     nested_par_in_table: float = 0.0  # D27: text box inside a table cell
@@ -663,8 +664,23 @@ class Gen:
                     if self.p(self.k.nested_tables) and not nested and self.depth < 1:
                         self.feat("nested_table")
                         self.depth += 1
-                        tc.append(self.table(nested=True))
+                        nt = self.table(nested=True)
                         self.depth -= 1
+                        if not tcpr and self.p(0.6):
+                            # the outer cell has no w:tcPr of its own while the nested table's first
+                            # cell spans two columns: properties must not be taken from descendants
+                            for old_pr in tc.findall(self.q("w", "tcPr")):
+                                tc.remove(old_pr)
+                            first = nt.find(self.q("w", "tr") + "/" + self.q("w", "tc"))
+                            if first is not None:
+                                fp = first.find(self.q("w", "tcPr"))
+                                if fp is None:
+                                    fp = self.E("w:tcPr")
+                                    first.insert(0, fp)
+                                if fp.find(self.q("w", "gridSpan")) is None and fp.find(self.q("w", "vMerge")) is None:
+                                    fp.append(self.E("w:gridSpan", {"w:val": "2"}))
+                                self.feat("nested_first_cell_span")
+                        tc.append(nt)
                         tc.append(self.paragraph())
                     elif self.p(self.k.sdt_in_table):
                         self.feat("sdt_in_table")
@@ -890,7 +906,7 @@ def gen_package(rng: random.Random, knobs: Knobs | None = None, ns=None) -> Pkg:
                 g.feat("odd_part_names")
             pkg.parts[f"word/{name}"] = g.body_part(name, tag)
             doc_rels.append((doc_rid(), REL_T + kind, name, False))
-            if g.p(0.12):
+            if g.p(k.shared_part):
                 # the same part related twice (e.g. as default and as first-page header)
                 doc_rels.append((doc_rid(), REL_T + kind, name, False))
                 g.feat("shared_part")
